@@ -417,7 +417,16 @@ func (s *Server) handleDiscover(req *dhcpv4.DHCPv4) (*dhcpv4.DHCPv4, error) {
 	var poolID uint32
 	var pool *Pool
 
-	if existingLease != nil && time.Now().Before(existingLease.ExpiresAt) {
+	if existingLease != nil && !time.Now().Before(existingLease.ExpiresAt) {
+		// The lease has lapsed but the cleanup tick has not run yet. Reclaim it
+		// now: otherwise the address offered below is backed only by the lapsed
+		// lease's pool allocation, which the next tick frees - and hands to
+		// another client - while this offer is still outstanding.
+		s.reclaimLapsedLease(existingLease)
+		existingLease = nil
+	}
+
+	if existingLease != nil {
 		// Reuse existing allocation
 		ip = existingLease.IP
 		poolID = existingLease.PoolID
@@ -1181,6 +1190,36 @@ func (s *Server) leaseCleanup(ctx context.Context) {
 			s.cleanupExpiredLeases()
 		}
 	}
+}
+
+// reclaimLapsedLease removes one lapsed lease the way the cleanup tick would:
+// lease table, circuit-id index, pool allocation and fast path entries.
+func (s *Server) reclaimLapsedLease(lease *Lease) {
+	mac := lease.MAC.String()
+
+	s.leasesMu.Lock()
+	if s.leases[mac] != lease {
+		// Renewed, released or already reclaimed meanwhile
+		s.leasesMu.Unlock()
+		return
+	}
+	delete(s.leases, mac)
+	s.leasesMu.Unlock()
+
+	if len(lease.CircuitID) > 0 {
+		cidKey := hex.EncodeToString(lease.CircuitID)
+		s.leasesByCircuitIDMu.Lock()
+		if s.leasesByCircuitID[cidKey] == lease {
+			delete(s.leasesByCircuitID, cidKey)
+		}
+		s.leasesByCircuitIDMu.Unlock()
+	}
+
+	if pool := s.poolMgr.GetPool(lease.PoolID); pool != nil {
+		pool.Release(lease.IP)
+	}
+
+	s.removeFromFastPath(lease.MAC, lease)
 }
 
 // cleanupExpiredLeases removes expired leases
